@@ -6,7 +6,7 @@
    no line holds another of str.splitlines' break characters. *)
 From Coq Require Import ZArith List Bool Lia.
 From Mistletoe Require Import Base.Sx Base.PyStr Base.PyText Gen.GenTables Gen.GenConfig Gen.GenEscapes Model.Fillers Model.Tree Model.CoreTokens Model.Block Model.Build
-     Model.DocLines Model.HtmlRenderer Model.Parser Proofs.PlainProse Proofs.Prose Proofs.ProseLines Proofs.ListLaw Proofs.FenceLaw Spec.Fragment Proofs.FragmentP Proofs.FragmentDoc Proofs.EmphSimple Proofs.EmphSentence.
+     Model.DocLines Model.HtmlRenderer Model.Parser Proofs.PlainProse Proofs.Prose Proofs.ProseLines Proofs.ListLaw Proofs.FenceLaw Spec.Fragment Proofs.InertProse Proofs.FragmentP Proofs.FragmentDoc Proofs.EmphSimple Proofs.EmphSentence.
 Import ListNotations.
 Local Open Scope Z_scope.
 
@@ -196,10 +196,11 @@ Qed.
 
 (* Document(lines), rendered to HTML *)
 Theorem fragment_html cfg o t :
-  fragment_config (cfg_block cfg) = true -> prose_spans (cfg_span cfg) = true -> emph_spans (cfg_span cfg) = true -> wf_b t = true ->
+  fragment_config (cfg_block cfg) = true -> prose_spans (cfg_span cfg) = true -> emph_spans (cfg_span cfg) = true ->
+  inert_spans (cfg_span cfg) = true -> wf_b t = true ->
   render_html o (fst (fst (parse_lines cfg (text_of (spell t))))) = html_f o false t ++ [10].
 Proof.
-  intros Hc Hq He Hw. rewrite (fragment_document cfg t Hc Hq He Hw).
+  intros Hc Hq He Hi Hw. rewrite (fragment_document cfg t Hc Hq He Hi Hw).
   pose proof (html_fragment o (depth t) t false (le_n _) Hw) as E. destruct (html_f_starts o t) as [r Er].
   rewrite (render_document_one o _ r) by (rewrite E; exact Er). rewrite E. reflexivity.
 Qed.
@@ -259,7 +260,7 @@ Proof.
   intros Hw H1. unfold markdown_html, parse_document. rewrite (doc_lines_spelled t H1).
   pose proof (fragment_html (if ph then cfg_html else cfg_html_nohtml) o t) as F.
   destruct (parse_lines (if ph then cfg_html else cfg_html_nohtml) (text_of (spell t))) as [[d fn] ls]. cbn [fst] in F.
-  apply F; [destruct ph; vm_compute; reflexivity|destruct ph; vm_compute; reflexivity|destruct ph; vm_compute; reflexivity|exact Hw].
+  apply F; [destruct ph; vm_compute; reflexivity|destruct ph; vm_compute; reflexivity|destruct ph; vm_compute; reflexivity|destruct ph; vm_compute; reflexivity|exact Hw].
 Qed.
 
 Example html_instance :
